@@ -1,6 +1,7 @@
 package pppoe
 
 import (
+	"bytes"
 	"context"
 	"crypto/rand"
 	"encoding/binary"
@@ -454,6 +455,14 @@ func (s *Server) handlePADT(clientMAC net.HardwareAddr, sessionID uint16) {
 	if session == nil {
 		return
 	}
+	// Only the station that owns the session may terminate it
+	if !bytes.Equal(session.ClientMAC, clientMAC) {
+		s.logger.Warn("PADT from a MAC that does not own the session",
+			zap.Uint16("session_id", sessionID),
+			zap.String("client_mac", clientMAC.String()),
+		)
+		return
+	}
 
 	s.logger.Info("PPPoE session terminated by client",
 		zap.Uint16("session_id", sessionID),
@@ -482,6 +491,10 @@ func (s *Server) handleSession(clientMAC net.HardwareAddr, data []byte) {
 
 	session := s.sessions.GetSession(hdr.SessionID)
 	if session == nil {
+		return
+	}
+	// A session only listens to the station it was created for
+	if !bytes.Equal(session.ClientMAC, clientMAC) {
 		return
 	}
 
